@@ -44,6 +44,7 @@ ProdLimbs(S) == IF S = {} THEN <<1>> ELSE LET x == CHOOSE y \in S : TRUE IN LMul
 HashDrift(c, e) == LET nc == NormCnf(c) IN
   OccBaseN(nc, Len(nc) + 1) <= Len(FirstPrimes) /\ e.hash # ProdLimbs(GonePrimes(nc, e.m))
 
+L2On == "nol2" \notin DOMAIN Rec[1]      \* bulk-padded solvers: the record shows a suffix of the clause list, the L2 predictions do not apply
 TStep ==
   /\ l <= Len(Rec)
   /\ l' = l + 1
@@ -55,7 +56,7 @@ TStep ==
                     THEN /\ GoodState(e.cnf, {}, e.m)                               \* L1
                          /\ SatFlagOK(e.cnf, e.m, e.sat) /\ IsSetOK(e)
                          /\ LET p == NewW(FALSE, e.cnf, e.nv) IN                     \* L2
-                              IF ~p.ok \/ p.m # e.m \/ p.wp # e.wp \/ p.wn # e.wn \/ HashDrift(e.cnf, e) THEN PrintT(<<"DRIFT", l>>) ELSE TRUE
+                              IF L2On /\ (~p.ok \/ p.m # e.m \/ p.wp # e.wp \/ p.wn # e.wn \/ HashDrift(e.cnf, e)) THEN PrintT(<<"DRIFT", l>>) ELSE TRUE
                          /\ stack' = <<Obs(e)>> /\ wp' = e.wp /\ wn' = e.wn
                          /\ last' = [op |-> "new", lit |-> 0]
                     ELSE /\ UnsatAllowed(e.cnf, {})                                  \* L1: None only if unsatisfiable
@@ -77,7 +78,7 @@ TStep ==
                             /\ {e.diff[i] : i \in 1 .. Len(e.diff)} = AssignedLits(e.m) \ AssignedLits(top.m)
                             /\ HashOK(cnf, e) /\ hmap' = HashUpd(cnf, e)
                             /\ stack' = Append(stack, Obs(e)) /\ decs' = Append(decs, e.lit)
-                  /\ IF p.ok # (e.res # "UNSAT") \/ (p.ok /\ p.m # e.m) \/ p.wp # e.wp \/ p.wn # e.wn \/ (e.res # "UNSAT" /\ HashDrift(cnf, e))
+                  /\ IF L2On /\ (p.ok # (e.res # "UNSAT") \/ (p.ok /\ p.m # e.m) \/ p.wp # e.wp \/ p.wn # e.wn \/ (e.res # "UNSAT" /\ HashDrift(cnf, e)))
                        THEN PrintT(<<"DRIFT", l>>) ELSE TRUE                         \* L2
                   /\ wp' = e.wp /\ wn' = e.wn
                   /\ last' = [op |-> e.res, lit |-> e.lit] /\ UNCHANGED cnf
